@@ -4,7 +4,8 @@
     [SpecTxBuilder::build_commitment_transaction], [CommitmentTransaction] output values and
     [build_closing_transaction]) on top of the rs2v-GENERATED fee/dust/anchor functions. *)
 Require Import LdkV.Prim.U64 LdkV.Prim.Rs2vLib LdkV.Gen.Consts LdkV.Gen.ChanUtilsFees LdkV.Gen.TxBuilder
-  LdkV.Model.CommitAmounts LdkV.Proofs.C01Amounts.
+  LdkV.Model.CommitAmounts LdkV.Model.Chan LdkV.Model.ChanSys
+  LdkV.Proofs.C01Amounts LdkV.Proofs.C01Limits LdkV.Proofs.C01Chan.
 From Coq Require Import Permutation.
 Open Scope Z_scope.
 
@@ -107,6 +108,109 @@ Theorem C01_coop_close :
                   + s mod 1000 + (v * 1000 - s) mod 1000) /\
   (fh > bal_h \/ fc > bal_c -> is_ok (build_closing funder skip v s fee hd) = false).
 Proof. exact closing_spec. Qed.
+
+(** What the protocol's acceptance check means: an [Ok] of the GENERATED [get_next_commitment_stats]
+    (no fee spike) says that the parties can pay for their HTLCs and the funder for anchors plus the
+    fee of the non-dust HTLCs (+ [addl]); the balances it returns are exactly what is left. *)
+Theorem C01_check_ok_means_payable :
+  forall local funder v s hs addl fr lim dust ct st,
+  stats_range v s hs addl fr dust ->
+  get_next_commitment_stats local funder v s hs addl fr false lim dust ct = ROk st ->
+  let fee := commit_tx_fee_sat fr (dirs_nondust local fr dust ct hs + addl) ct in
+  let anchors := total_anchors_sat ct in
+  s <= v * 1000 /\ dirs_out_msat hs <= s /\ dirs_in_msat hs <= v * 1000 - s /\
+  (if funder
+   then anchors * 1000 + fee * 1000 <= s - dirs_out_msat hs /\
+        ncs_holder_balance_msat st = s - dirs_out_msat hs - anchors * 1000 - fee * 1000 /\
+        ncs_counterparty_balance_msat st = v * 1000 - s - dirs_in_msat hs
+   else anchors * 1000 + fee * 1000 <= v * 1000 - s - dirs_in_msat hs /\
+        ncs_holder_balance_msat st = s - dirs_out_msat hs /\
+        ncs_counterparty_balance_msat st = v * 1000 - s - dirs_in_msat hs - anchors * 1000 - fee * 1000).
+Proof. exact stats_ok_spec. Qed.
+
+(** Every commitment that passes that check satisfies the preconditions of [C01_commit_conserves]
+    including [anchors_affordable]; it is built, its outputs and a non-negative fee add up to the channel
+    value, the funder pays the whole fee (not the saturating branch), and the balances the check
+    computed are the ones paid out (before dust zeroing). *)
+Theorem C01_accepted_commitment_conserves :
+  forall local funder v s hs fr lim dust ct st,
+  stats_range v s hs 0 fr dust -> ct_ok ct = true ->
+  (ctf_supports_anchor_zero_fee_commitments ct = true -> fr = 0) ->
+  get_next_commitment_stats local funder v s hs 0 fr false lim dust ct = ROk st ->
+  let htlcs := to_outs local 0 hs in
+  commit_pre ct local funder v s htlcs fr dust /\
+  anchors_affordable ct local funder v s htlcs /\
+  exists ca outs fee_paid,
+    build_commitment ct local funder v s htlcs fr dust = Some ca /\
+    commit_tx_outputs ct v (ca_to_broadcaster_sat ca) (ca_to_countersignatory_sat ca) (ca_nondust ca) = Some outs /\
+    sum_z outs + fee_paid = v /\ 0 <= fee_paid /\
+    ca_commit_tx_fee_sat ca <= funder_before_fee_sat funder ca /\
+    pre_dust_values funder ca = (ncs_holder_balance_msat st / 1000, ncs_counterparty_balance_msat st / 1000).
+Proof. exact accepted_commitment_conserves. Qed.
+
+(** Protocol layer ([Model/Chan.v], [Model/ChanSys.v]; tied to the code by per-step trace
+    correspondence). For ALL label lists and oracles — sends, claims, fails, fee updates, single-message
+    deliveries in any order, disconnections and reconnections — starting from any well-formed pair of
+    channels: in every commitment either node builds no HTLC occurs twice, the HTLCs in it are exactly
+    the pending ones whose state says "included", and the builder's non-dust ++ dust lists are a
+    permutation of them: each pending HTLC exactly once, as an output or as dust. *)
+Theorem C01_each_htlc_once :
+  forall s0 ls s x g number,
+  sys_wf s0 -> run s0 ls = ROk s ->
+  let c := node s x in
+  let v := build_view c number g in
+  NoDup (map view_key (cv_htlcs v)) /\
+  (forall p, In (false, p) (cv_htlcs v) <-> exists h, In h (c_in c) /\ ih h = p /\ in_included (ist h) g = true) /\
+  (forall p, In (true, p) (cv_htlcs v) <-> exists h, In h (c_out c) /\ oh h = p /\ out_included (ost h) g = true) /\
+  (forall local ca, view_amounts c local v = Some ca ->
+     Permutation (ca_nondust ca ++ ca_dust ca)
+       (map (fun oh => mkHtlcOut (Bool.eqb (fst oh) local) (p_amt (snd oh)) (p_tag (snd oh))) (cv_htlcs v))).
+Proof. exact each_htlc_once. Qed.
+
+(** For ALL label lists: each side's [value_to_self_msat] is its opening balance plus the HTLCs
+    irrevocably settled to it minus those settled away, where "irrevocably settled" is: claimed and
+    removed by the peer's revoke_and_ack ([ledger] adds them up step by step). No other step moves it. *)
+Theorem C01_balance_ledger :
+  forall ls s0 s x,
+  run s0 ls = ROk s ->
+  c_self_msat (node s x) = c_self_msat (node s0 x) + fst (ledger s0 ls x) - snd (ledger s0 ls x).
+Proof. exact balance_ledger. Qed.
+
+(** The balance a commitment uses is that plus our claims not yet in the peer's revocation, minus the
+    peer's claims already out of this commitment ([build_commitment_transaction]'s adjustments). *)
+Theorem C01_commitment_balance :
+  forall c number g,
+  cv_to_self_msat (build_view c number g) = c_self_msat c + value_to_self_claimed c g - value_to_remote_claimed c g.
+Proof. reflexivity. Qed.
+
+(** Send limits at [send_htlc]: outside [minimum, limit] the send is refused (an error carries no state:
+    nothing changes); inside, on a connected channel, it is accepted and changes nothing but the new
+    HTLC (outbound list or holding cell). *)
+Theorem C01_limits_tight :
+  forall limit minimum c amt tag,
+  amt < minimum \/ limit < amt -> is_ok (send_htlc_checked limit minimum c amt tag) = false.
+Proof. exact limits_tight. Qed.
+
+Theorem C01_limits_accept_sender :
+  forall limit minimum c amt tag,
+  0 < amt -> minimum <= amt <= limit -> c_disconnected c = false ->
+  exists c' b, send_htlc_checked limit minimum c amt tag = ROk (c', b) /\
+    (if b then c_out c' = c_out c ++ [mkOut (mkP (c_next_holder_id c) amt tag) OS_LocalAnnounced] /\ c_hc c' = c_hc c
+     else c_hc c' = c_hc c ++ [HC_Add amt tag] /\ c_out c' = c_out c) /\
+    c_in c' = c_in c /\ c_self_msat c' = c_self_msat c.
+Proof. exact limits_accept. Qed.
+
+(** Non-vacuity of the protocol-layer theorems: a well-formed initial pair of channels and a schedule
+    (two HTLCs, one through the holding cell, one claimed) that the system accepts, with its result. *)
+Example C01_sys_wf_inhabited : sys_wf ex_sys.
+Proof. exact ex_sys_wf. Qed.
+
+Example C01_run_example :
+  exists s, run ex_sys ex_labels = ROk s /\
+  c_self_msat (s_n0 s) = 65000000 /\ c_self_msat (s_n1 s) = 35000000 /\
+  map (fun h => (p_id (ih h), in_code (ist h))) (c_in (s_n0 s)) = [(0, 3)] /\
+  ledger ex_sys ex_labels false = (0, 5000000).
+Proof. exact ex_run_ok. Qed.
 
 (** Non-vacuity: a concrete instance satisfies the preconditions (anchors channel, counterparty
     commitment, two of four HTLCs trimmed at the threshold), and its computed value. *)
